@@ -35,8 +35,8 @@ PROPS = {
     },
     'C05': {
         'extra_props': ['C00_pipeline'],
-        'ops': [('aggregate', 1500, 40000)],
-        'corr': ['corr:ids', 'corr:panic'],
+        'ops': [('aggregate', 1500, 40000), ('sigops', 800, 40000)],
+        'corr': ['corr:ids', 'corr:panic', 'corr:sig-similar', 'corr:sig-equal'],
         'prop': ['C05', 'C06:aggregate'],
         'nontrivial': ['multi', 'merged'],
         'input_fields': 2,
@@ -45,8 +45,8 @@ PROPS = {
     },
     'C12': {
         'extra_props': ['C00_pipeline'],
-        'ops': [('aggregate', 1500, 40000)],
-        'corr': ['corr:sig', 'corr:panic'],
+        'ops': [('aggregate', 1500, 40000), ('sigops', 800, 40000)],
+        'corr': ['corr:sig', 'corr:panic', 'corr:sig-merge'],
         'prop': ['C12'],
         'nontrivial': ['merged'],
         'input_fields': 2,
@@ -54,13 +54,14 @@ PROPS = {
     },
     'C13': {
         'extra_props': ['C00_pipeline'],
-        'ops': [('aggregate', 1000, 30000), ('less3', 5000, 200000)],
-        'corr': ['corr:order', 'corr:less', 'corr:panic'],
+        'ops': [('aggregate', 1000, 30000), ('less3', 5000, 200000), ('sigops', 1500, 60000)],
+        'corr': ['corr:order', 'corr:less', 'corr:panic', 'corr:sig-less'],
         'prop': ['C13'],
         'nontrivial': ['multi', 'lt'],
         'input_fields': 2,
         'rule': _AGG_RULE + '; less3: triples of signatures varying stack length, per-frame location class, package main, function/file/line, lock, state; '
-                'Signature.less observed through the order of two singleton buckets at ExactFlags in both arrival orders; the four order laws are checked on the observed relation',
+                'Signature.less observed through the order of two singleton buckets at ExactFlags in both arrival orders; the four order laws are checked on the observed relation; '
+                'sigops (hook VerifLess): Signature.less called directly on all 9 ordered pairs of a triple, compared with sig_less, and irreflexivity, asymmetry, transitivity and transitivity of incomparability checked on the answers',
         'assumptions': ['at most one goroutine of a snapshot is First (true of parser output)'],
     },
 
@@ -77,8 +78,8 @@ PROPS = {
     },
     'C01': {
         'extra_props': ['C00_pipeline'],
-        'ops': [('scan', 500, 30000, ('-mix', 'c01'))],
-        'corr': ['corr:snap', 'corr:err', 'corr:panic', 'corr:rest', 'corr:fwd'],
+        'ops': [('scan', 500, 30000, ('-mix', 'c01')), ('step', 200, 10000)],
+        'corr': ['corr:snap', 'corr:err', 'corr:panic', 'corr:rest', 'corr:fwd', 'corr:step-trace', 'corr:step-goroutines'],
         'prop': ['C01'],
         'nontrivial': ['gs='],
         'input_fields': 1,
@@ -88,8 +89,8 @@ PROPS = {
                 'file lines x indented blank lines; three-way comparison: implementation snapshot = model snapshot = the snapshot the AST denotes; non-trivial = a snapshot was returned',
     },
     'C08': {
-        'ops': [('scan', 400, 20000, ('-mix', 'c08'))],
-        'corr': ['corr:snap', 'corr:err', 'corr:panic', 'corr:rest', 'corr:fwd'],
+        'ops': [('scan', 400, 20000, ('-mix', 'c08')), ('step', 200, 10000)],
+        'corr': ['corr:snap', 'corr:err', 'corr:panic', 'corr:rest', 'corr:fwd', 'corr:step-trace', 'corr:step-goroutines'],
         'prop': ['C08', 'C02:region'],
         'nontrivial': ['gs='],
         'input_fields': 1,
@@ -110,8 +111,8 @@ PROPS = {
     },
     'C03': {
         'extra_props': ['C02b', 'C00_pipeline'],
-        'ops': [('scan', 1500, 150000, ('-mix', 'c03')), ('scan', 200, 10000, ('-mix', 'c02')), ('scanseq', 60, 3000), ('pp', 30, 2000), ('aggregate', 300, 20000), ('html', 100, 5000), ('scan', 1000, 14424, ('-mix', 'kinds'))],
-        'corr': ['corr:panic', 'corr:snap', 'corr:err', 'corr:seq'],
+        'ops': [('scan', 1500, 150000, ('-mix', 'c03')), ('scan', 200, 10000, ('-mix', 'c02')), ('scanseq', 60, 3000), ('pp', 30, 2000), ('aggregate', 300, 20000), ('html', 100, 5000), ('scan', 1000, 14424, ('-mix', 'kinds')), ('step', 400, 20000), ('sigops', 300, 10000)],
+        'corr': ['corr:panic', 'corr:snap', 'corr:err', 'corr:seq', 'corr:step-trace'],
         'prop': ['C03'],
         'nontrivial': ['kind=', 'calls='],
         'input_fields': 1,
@@ -119,13 +120,13 @@ PROPS = {
                 'token insertion: %-escapes, brackets, huge numbers, separators); every case runs under recover(); a panic is a violation',
     },
     'C09': {
-        'ops': [('scan', 250, 8000, ('-mix', 'c09')), ('scan', 200, 8000, ('-mix', 'c02')), ('chunk', 6, 60)],
-        'corr': ['corr:reads', 'corr:writes', 'corr:rest', 'corr:snap', 'corr:fwd', 'corr:err', 'corr:panic'],
+        'ops': [('scan', 250, 8000, ('-mix', 'c09')), ('scan', 200, 8000, ('-mix', 'c02')), ('chunk', 6, 60), ('rlines', 300, 10000)],
+        'corr': ['corr:reads', 'corr:writes', 'corr:rest', 'corr:snap', 'corr:fwd', 'corr:err', 'corr:panic', 'corr:rlines', 'corr:rlines-err'],
         'prop': ['C09'],
-        'nontrivial': ['kind=', 'chunk'],
+        'nontrivial': ['kind=', 'chunk', 'lines='],
         'input_fields': 2,
         'rule': _SCAN_RULE + '; every case is also delivered in one piece and the two outcomes (snapshot, forwarded bytes, error, remainder ++ unread) must be equal; the model must predict the exact sequence '
-                'of Read sizes; mix c09: lines of 16382..16386 and multiples, dump lines longer than the buffer, chunk sizes 0/1/16383/16384/16385; op chunk: ALL 2^(n-1) chunkings of short inputs',
+                'of Read sizes; mix c09: lines of 16382..16386 and multiples, dump lines longer than the buffer, chunk sizes 0/1/16383/16384/16385; op chunk: ALL 2^(n-1) chunkings of short inputs; rlines (hook VerifReadLines): reader.readLine alone under the scripted reader, the lines compared with the model read_line and with the LF-split of the content',
     },
     'C11': {
         'ops': [('scan', 250, 8000, ('-mix', 'c09')), ('scan', 300, 10000, ('-mix', 'c02')), ('scan', 200, 5000, ('-mix', 'junk')), ('pppipe', 10, 120)],
@@ -137,14 +138,16 @@ PROPS = {
                 'implementation trace alone: every complete forwarded line within the delivered bytes is already written, no Read after the line that ends the dump',
     },
     'C07': {
-        'ops': [('scanseq', 200, 10000), ('scan', 200, 5000, ('-mix', 'c02')), ('pppipe', 10, 120), ('scan', 1500, 14424, ('-mix', 'kinds'))],
-        'corr': ['corr:seq', 'corr:seqrest', 'corr:panic', 'corr:snap', 'corr:rest', 'corr:pp:pipe', 'corr:pp-exit:pipe'],
+        'extra_props': ['C07c'],
+        'ops': [('scanseq', 200, 10000), ('scan', 200, 5000, ('-mix', 'c02')), ('pppipe', 10, 120), ('scan', 1500, 14424, ('-mix', 'kinds')), ('step', 600, 30000)],
+        'corr': ['corr:seq', 'corr:seqrest', 'corr:panic', 'corr:snap', 'corr:rest', 'corr:pp:pipe', 'corr:pp-exit:pipe', 'corr:step-trace', 'corr:step-sessions', 'corr:step-goroutines'],
         'prop': ['C07', 'C02:region', 'C11:pp'],
-        'nontrivial': ['dumps=', 'kind='],
+        'nontrivial': ['dumps=', 'kind=', 'sessions='],
         'input_fields': 1,
         'rule': 'streams J0 D1 J1 .. Dk Jk (k = 1..4 dumps / race reports, all variants, junk lines that can neither start a dump nor be swallowed), scanned with the documented resume protocol '
                 '(MultiReader(suffix, rest), continuing after scan errors); one snapshot per dump equal to scanning the dump alone, all other bytes forwarded once and in order; '
-                'mix kinds: sequences of 24 representative line kinds of both grammars (quick: 1500 random sequences of length <= 7; thorough: ALL sequences of length <= 3) through implementation and model; pppipe: the pp binary fed through a pipe that stays open',
+                'mix kinds: sequences of 24 representative line kinds of both grammars (quick: 1500 random sequences of length <= 7; thorough: ALL sequences of length <= 3) through implementation and model; pppipe: the pp binary fed through a pipe that stays open; '
+                'step (hook VerifStepper): scanningState.scan driven line by line under the ScanSnapshot/resume protocol, the state, consumed flag and error of EVERY line compared with the model scan (whose control is proved equal to the reference automaton Spec/RefGrammar.ref_step, C07c)',
     },
     'C10': {
         'ops': [('cut', 8, 300)],
@@ -190,7 +193,7 @@ PROPS = {
     },
     'C14': {
         'race_driver': True,
-        'ops': [('alias', 400, 20000), ('aggregate', 500, 20000), ('guess', 60, 2000)],
+        'ops': [('alias', 400, 20000), ('aggregate', 500, 20000), ('guess', 60, 2000), ('sigops', 300, 10000)],
         'corr': ['corr:alias', 'corr:panic'],
         'prop': ['C14'],
         'nontrivial': ['ops='],
